@@ -335,3 +335,143 @@ Definition w_sched_lag (lag kw : N) (n : nat) : list event :=
   flat_map (fun k => (if kw + lag <=? k then [ER (k - lag)] else []) ++ [EW]) (nseq (kw + 1) n).
 
 Definition wmarks (S : wst) : N * N * N := marks (wb S).
+
+(* ====================================================================== -b, and -a -b together
+   find_sysline_between_datetime_filters: the message found at or after A is tested against B
+   (dt_pass_filters); AfterRange -> Done: the message HAS BEEN FOUND AND STORED but is not sent, and
+   the driver stops (no drop_data_try in that iteration).  With -b alone the "search" is the single
+   find_sysline(0) (dt_filter_after = None: Pass). *)
+Definition after_b (tb : option Z) (m : msg) : bool :=
+  match tb with Some b => (b <? Z.of_N (mkey m))%Z | None => false end.
+
+Definition w_search2 (bs : N) (ms : list msg) (ta : option Z) : wst * sres :=
+  wsearch bs ms ta 0 (w_blockzero bs (wfilesz ms) ms (winit ms)).
+
+(* the iteration of the stage-3 loop that finds the first message after B: found, not sent, break *)
+Definition w_stop_step (S : wst) (q : msg) : wst :=
+  let S1 := w_stream_find S q in
+  with_wb S1 (set_worker (release (wb S1) (mkey q)) [] false (wprev (wb S))).
+
+Definition w_wstep2 (c : cfg) (tb : option Z) (S : wst) : wst :=
+  match todo (wb S) with
+  | [] => S
+  | q :: _ => if after_b tb q then w_stop_step S q else w_wstep c S
+  end.
+
+Definition w_step2 (c : cfg) (tb : option Z) (S : wst) (e : event) : wst :=
+  match e with EW => w_wstep2 c tb S | ER j => with_wb S (release (wb S) j) end.
+
+Definition w_steps2 (c : cfg) (tb : option Z) (S : wst) (evs : list event) : wst :=
+  fold_left (w_step2 c tb) evs S.
+
+Fixpoint w_sched_ok2 (H : N) (c : cfg) (tb : option Z) (S : wst) (evs : list event) : bool :=
+  match evs with
+  | [] => true
+  | e :: r => let S' := w_step2 c tb S e in (lenN (held (wb S')) <=? H) && w_sched_ok2 H c tb S' r
+  end.
+
+(* the whole run of a PLAIN file with any window (ta = -a, tb = -b, each optional) *)
+Definition w_run2 (c : cfg) (bs : N) (ms : list msg) (ta tb : option Z) (evs : list event) : wst :=
+  let W := fst (w_search2 bs ms ta) in
+  match snd (w_search2 bs ms ta) with
+  | SFound _ s =>
+      match msg_of ms s with
+      | Some w => if after_b tb w then W else
+                  match after_key (mkey w) ms with
+                  | [] => with_wb W (hold (wb W) (mkey w))
+                  | q :: rest => w_steps2 c tb (start_stream W w q rest) evs
+                  end
+      | None => W
+      end
+  | _ => W
+  end.
+
+Definition w_run_sched_ok2 (H : N) (c : cfg) (bs : N) (ms : list msg) (ta tb : option Z) (evs : list event) : bool :=
+  let W := fst (w_search2 bs ms ta) in
+  match snd (w_search2 bs ms ta) with
+  | SFound _ s =>
+      match msg_of ms s with
+      | Some w => if after_b tb w then true else
+                  match after_key (mkey w) ms with
+                  | [] => true
+                  | q :: rest => w_sched_ok2 H c tb (start_stream W w q rest) evs
+                  end
+      | None => true
+      end
+  | _ => true
+  end.
+
+(* ====================================================================== windows on STREAMED files
+   (and, for -b, on any file read from its start): the streaming model of Model/Retain.v with
+   the driver of the current code.  Stage 2 is ONE call of
+   find_sysline_at_datetime_filter_linear_search: find_sysline for every message from the start of
+   the file until the first one at or after A — every message before A is found and STORED, none is
+   sent, and drop_data_try is NOT called (it only exists in the stage-3 loop).  find_sysline is
+   always asked for a message start there, so the caches never block a release: no LRU state. *)
+Definition before_a (ta : option Z) (m : msg) : bool :=
+  match ta with Some a => (Z.of_N (mkey m) <? a)%Z | None => false end.
+
+(* find_sysline of the next message, not sent, nothing dropped *)
+Definition lin_step (c : cfg) (s : st) : st :=
+  match todo s with
+  | [] => s
+  | m :: rest => set_worker (release (do_find c s (stage2 s) m) (mkey m)) rest false None
+  end.
+
+(* the linear search: messages before A *)
+Fixpoint lin_search (c : cfg) (ta : option Z) (fuel : nat) (s : st) : st :=
+  match fuel with
+  | O => s
+  | S f => match todo s with
+           | m :: _ => if before_a ta m then lin_search c ta f (lin_step c s) else s
+           | [] => s
+           end
+  end.
+
+(* the message the search returns is sent; the stage-3 loop starts with no previous message *)
+Definition send_step (c : cfg) (s : st) : st :=
+  match todo s with
+  | [] => s
+  | m :: rest => set_worker (do_find c s (stage2 s) m) rest false None
+  end.
+
+(* found, after B: not sent, the driver stops *)
+Definition stop_step (c : cfg) (s : st) : st :=
+  match todo s with
+  | [] => s
+  | m :: _ => set_worker (release (do_find c s (stage2 s) m) (mkey m)) [] false (wprev s)
+  end.
+
+Definition wstep_b (c : cfg) (tb : option Z) (s : st) : st :=
+  match todo s with
+  | [] => s
+  | m :: _ => if after_b tb m then stop_step c s else wstep c s
+  end.
+
+Definition step_b (c : cfg) (tb : option Z) (s : st) (e : event) : st :=
+  match e with EW => wstep_b c tb s | ER j => release s j end.
+
+Definition run_b (c : cfg) (tb : option Z) (s : st) (evs : list event) : st := fold_left (step_b c tb) evs s.
+
+Fixpoint sched_ok_b (H : N) (c : cfg) (tb : option Z) (s : st) (evs : list event) : bool :=
+  match evs with
+  | [] => true
+  | e :: r => let s' := step_b c tb s e in (lenN (held s') <=? H) && sched_ok_b H c tb s' r
+  end.
+
+(* the state when stage 3 starts (or the final state when nothing is in the window) *)
+Definition sw_start (c : cfg) (ms : list msg) (ta tb : option Z) : st :=
+  let s2 := lin_search c ta (length ms) (init ms) in
+  match todo s2 with
+  | [] => s2
+  | m :: _ => if after_b tb m then stop_step c s2 else send_step c s2
+  end.
+
+(* a run over a streamed file (or any file read from its start) with a window *)
+Definition sw_run (c : cfg) (ms : list msg) (ta tb : option Z) (evs : list event) : st :=
+  run_b c tb (sw_start c ms ta tb) evs.
+
+(* the REPAIRED driver: drop_data_try is also called inside the linear search, i.e. stage 2 is the
+   stage-3 loop with messages that are not sent (the consumer never references them) *)
+Definition sw_run_repaired (c : cfg) (ms : list msg) (nbefore : nat) (evs : list event) : st :=
+  run c (init ms) (flat_map (fun k => [EW; ER k]) (nseq 0 nbefore) ++ evs).
